@@ -552,6 +552,37 @@ class TemplateIndex:
     def expand_g(self, s: Sink, depth: int = 0) -> List[Tuple[Sink, List[str], List[Tuple[str, bool]]]]:
         return [(f, w, g) for f, w, g, _ in self.expand_c(s, depth)]
 
+    @staticmethod
+    def _const_args(s: Sink, w: str, callee: FuncInfo) -> Dict[str, object]:
+        """Parameters of `callee` that the wrapper call `w(...)` inside the hole of `s` binds to constants (explicitly or by default)."""
+        call = None
+        for x in ast.walk(s.node):
+            if isinstance(x, ast.Call) and ((isinstance(x.func, ast.Name) and x.func.id == w) or (isinstance(x.func, ast.Attribute) and x.func.attr == w)):
+                call = x
+                break
+        if call is None or not isinstance(callee.node, ast.FunctionDef):
+            return {}
+        a = callee.node.args
+        params = [x.arg for x in a.args]
+        out: Dict[str, object] = {}
+        bound = set()
+        for p_, v in zip(params, call.args):
+            bound.add(p_)
+            if isinstance(v, ast.Constant):
+                out[p_] = v.value
+        for kw in call.keywords:
+            if kw.arg:
+                bound.add(kw.arg)
+                if isinstance(kw.value, ast.Constant):
+                    out[kw.arg] = kw.value.value
+        for p_, d in zip(params[len(params) - len(a.defaults):], a.defaults):
+            if p_ not in bound and isinstance(d, ast.Constant):
+                out[p_] = d.value
+        for p_, d in zip([x.arg for x in a.kwonlyargs], a.kw_defaults):
+            if p_ not in bound and isinstance(d, ast.Constant):
+                out[p_] = d.value
+        return out
+
     def expand_c(self, s: Sink, depth: int = 0):
         """[(final sink, wrappers, guards, chain of sinks from s to the final one)]."""
         res = []
@@ -568,6 +599,10 @@ class TemplateIndex:
             pi = s.arg_index if k == len(s.wrappers) - 1 and s.arg_index < len(params) else 0
             inner = self.param_contexts(callee, params[pi], depth + 1)
             if inner:
+                # constant arguments at this call site decide the callee's tests on those parameters (`block=True`): infeasible callee contexts are dropped
+                consts = self._const_args(s, w, callee)
+                if consts:
+                    inner = [si for si in inner if not any(g[0] in consts and bool(consts[g[0]]) != g[1] for g in si.guards)]
                 for si in inner:
                     for fin, ws, gs, ch in self.expand_c(si, depth + 1):
                         res.append((fin, s.wrappers[:k] + ws, list(s.guards) + gs, [s] + ch))
